@@ -854,8 +854,6 @@ Definition routing_as_documented (T : trtables) : Prop :=
   /\ type_to_sheet T WAGES = Some n_wages.
 Lemma us_routing_documented : routing_as_documented tax_tables_us.
 Proof. vm_compute. repeat split. Qed.
-Lemma ie_routing_documented : routing_as_documented tax_tables_ie.
-Proof. vm_compute. repeat split. Qed.
 
 (** the columns of a row: (a) amount + asset, (b) date acquired, (c) date sold, (d) proceeds, (e) cost basis,
     (h) gain, LONG/SHORT, full timestamp; income rows leave (b) and (e) blank *)
@@ -897,8 +895,337 @@ Proof.
   eexists. split; [reflexivity|]. eexists. split; [vm_compute; reflexivity|]. vm_compute. reflexivity.
 Qed.
 
+(** ---------- capacity: the rows appended per asset cover the rows written *)
+Section Counting.
+Variable T : trtables.
+
+Lemma filter_length_le {A} (p : A -> bool) l : (length (filter p l) <= length l)%nat.
+Proof. induction l as [|x l IH]; cbn [filter length]; [lia|]. destruct (p x); cbn [length]; lia. Qed.
+
+Lemma filter_filter_le {A} (p q : A -> bool) l : (length (filter p (filter q l)) <= length (filter p l))%nat.
+Proof.
+  induction l as [|x l IH]; cbn [filter]; [lia|]. destruct (q x), (p x) eqn:E; cbn [filter length]; rewrite ?E; cbn [length]; lia.
+Qed.
+
+Lemma filter_map_length {A B} (f : A -> B) (p : B -> bool) l : length (filter p (map f l)) = length (filter (fun x => p (f x)) l).
+Proof. induction l as [|x l IH]; cbn [map filter]; [reflexivity|]. destruct (p (f x)); cbn [length]; rewrite IH; reflexivity. Qed.
+
+Lemma Forall2_filter_length {A B} (R : A -> B -> Prop) (p : A -> bool) (q : B -> bool) l l' :
+  Forall2 R l l' -> (forall x y, R x y -> p x = q y) -> length (filter p l) = length (filter q l').
+Proof.
+  intros F E. induction F as [|a b l l' Hab F IH]; [reflexivity|]. cbn [filter]. rewrite (E a b Hab).
+  destruct (q b); cbn [length]; rewrite IH; reflexivity.
+Qed.
+
+Definition routed_ty (n : str) (ty : ttype) : bool :=
+  match type_to_sheet T ty with Some m => str_eqb m n | None => false end.
+
+Lemma type_to_sheet_Some ty n : type_to_sheet T ty = Some n ->
+  exists tys, In (n, tys) (tt_sheet_to_types T) /\ ttype_in ty tys = true.
+Proof.
+  unfold type_to_sheet.
+  assert (G : forall l acc, fold_left (fun acc st => if ttype_in ty (snd st) then Some (fst st) else acc) l acc = Some n ->
+              acc = Some n \/ exists tys, In (n, tys) l /\ ttype_in ty tys = true).
+  { induction l as [|[m tys] l IH]; intros acc H; cbn [fold_left] in H; [left; exact H|].
+    destruct (IH _ H) as [E|[tys' [I1 I2]]].
+    - cbn [fst snd] in E. destruct (ttype_in ty tys) eqn:Et.
+      + inversion E; subst. right. exists tys. split; [left; reflexivity | exact Et].
+      + left. exact E.
+    - right. exists tys'. split; [right; exact I1 | exact I2]. }
+  intro H. destruct (G _ _ H) as [E|E]; [discriminate | exact E].
+Qed.
+
+Lemma routed_ty_in n ty tys : NoDup (map fst (tt_sheet_to_types T)) -> sheet_types T n = Some tys ->
+  routed_ty n ty = true -> ttype_in ty tys = true.
+Proof.
+  intros ND Hs Hr. unfold routed_ty in Hr. destruct (type_to_sheet T ty) as [m|] eqn:E; [|discriminate].
+  apply str_eqb_eq in Hr. subst m. destruct (type_to_sheet_Some ty n E) as [tys' [I1 I2]].
+  unfold sheet_types in Hs. rewrite (In_sget n tys' _ ND I1) in Hs. inversion Hs; subst. exact I2.
+Qed.
+
+Lemma filter_or_length {A} (p q : A -> bool) l :
+  (length (filter (fun x => p x || q x) l) <= length (filter p l) + length (filter q l))%nat.
+Proof. induction l as [|x l IH]; cbn [filter length]; [lia|]. destruct (p x), (q x); cbn [orb length]; lia. Qed.
+
+Lemma in_types_sum {A} (ty_of : A -> ttype) (l : list A) : forall tys,
+  Z.of_nat (length (filter (fun g => ttype_in (ty_of g) tys) l))
+  <= fold_right (fun ty acc => Z.of_nat (length (filter (fun g => ttype_eqb (ty_of g) ty) l)) + acc) 0 tys.
+Proof.
+  induction tys as [|ty tys IH]; cbn [fold_right].
+  - rewrite (filter_nil_above _ l); [cbn; lia|]. apply Forall_forall. intros. reflexivity.
+  - pose proof (filter_or_length (fun g => ttype_eqb (ty_of g) ty) (fun g => ttype_in (ty_of g) tys) l) as H.
+    rewrite (filter_ext (fun g => ttype_in (ty_of g) (ty :: tys)) (fun g => ttype_eqb (ty_of g) ty || ttype_in (ty_of g) tys)) by (intro; reflexivity).
+    lia.
+Qed.
+
+Lemma appended_ge count tys : append_ok T -> (forall ty, 0 <= count ty) ->
+  fold_right (fun ty acc => count ty + acc) 0 tys <= appended T count tys.
+Proof.
+  intros A C. unfold appended.
+  assert (G : forall l acc, acc + fold_right (fun ty a => count ty + a) 0 l
+                            <= fold_left (fun a ty => a + tt_append_rows T (tt_min_rows T) (count ty)) l acc).
+  { induction l as [|ty l IH]; intro acc; cbn [fold_right fold_left]; [lia|].
+    specialize (IH (acc + tt_append_rows T (tt_min_rows T) (count ty))). pose proof (A (count ty) (C ty)). lia. }
+  specialize (G tys 0). lia.
+Qed.
+
+(** fractions of one asset routed to sheet [n] (window) vs the rows appended to it for that asset *)
+Lemma routed_le_appended i c n tys : append_ok T -> NoDup (map fst (tt_sheet_to_types T)) -> sheet_types T n = Some tys ->
+  cd_gls c = iter_window g_day (rp_from i) (rp_to i) (cd_all_gls c) ->
+  Z.of_nat (length (filter (fun g => routed_ty n (t_type (g_ev g))) (cd_gls c))) <= appended T (type_count i c) tys.
+Proof.
+  intros A ND Hs Hg.
+  eapply Z.le_trans; [|apply (appended_ge (type_count i c) tys A); intro; unfold type_count; lia].
+  rewrite Hg, iter_window_take_until.
+  set (tu := take_until g_day (rp_to i) (cd_all_gls c)).
+  eapply Z.le_trans; [|exact (in_types_sum (fun g => t_type (g_ev g)) tu tys)].
+  apply Nat2Z.inj_le. eapply Nat.le_trans; [|apply filter_filter_le with (q := fun x => rp_from i <=? g_day x)].
+  (* routed to n implies the type is one of the sheet's types *)
+  generalize (filter (fun x => rp_from i <=? g_day x) tu). intro l.
+  induction l as [|g l IH]; cbn [filter length]; [lia|].
+  destruct (routed_ty n (t_type (g_ev g))) eqn:E.
+  - rewrite (routed_ty_in n _ tys ND Hs E). cbn [length]. lia.
+  - destruct (ttype_in (t_type (g_ev g)) tys); cbn [length]; lia.
+Qed.
+
+End Counting.
+
+(** ---------- totality: with consistent tables and [append_ok] no lookup fails and no row lies outside its sheet *)
+Lemma compute_gls p f t a e h txs fs c : compute p f t a e h txs fs = Ok c -> cd_gls c = iter_window g_day f t (cd_all_gls c).
+Proof.
+  intro H. unfold compute in H.
+  repeat match type of H with (match ?x with _ => _ end = Ok _) => destruct x; try discriminate end.
+  inversion H. reflexivity.
+Qed.
+
+Lemma computed_all_gls i : forall l acs, computed_all i l = Ok acs ->
+  forall ac, In ac acs -> cd_gls (snd ac) = iter_window g_day (rp_from i) (rp_to i) (cd_all_gls (snd ac)).
+Proof.
+  induction l as [|a l IH]; intros acs H ac Hac; cbn [computed_all] in H.
+  - inversion H; subst. contradiction.
+  - destruct (computed_of i a) as [c|] eqn:E; [|discriminate]. destruct (computed_all i l) as [r|]; [|discriminate].
+    inversion H; subst. destruct Hac as [<-|Hac]; [|exact (IH r eq_refl ac Hac)].
+    cbn [snd]. unfold computed_of in E. exact (compute_gls _ _ _ _ _ _ _ _ _ E).
+Qed.
+
+Section Total.
+Variable T : trtables.
+Hypothesis G : tables_good T.
+Hypothesis A : append_ok T.
+
+Lemma find_sheet_name n l s : find_sheet n l = Some s -> sw_name s = n /\ In s l.
+Proof. unfold find_sheet. intro H. apply find_some in H. destruct H as [H1 H2]. apply str_eqb_eq in H2. tauto. Qed.
+
+Lemma find_sheet_In n : forall l, In n (map sw_name l) -> exists s, find_sheet n l = Some s.
+Proof.
+  induction l as [|s l IH]; cbn [map]; intro H; [contradiction|]. unfold find_sheet. cbn [find].
+  destruct (str_eqb (sw_name s) n) eqn:E; [exists s; reflexivity|]. destruct H as [H|H]; [subst n; rewrite str_eqb_refl in E; discriminate|].
+  exact (IH H).
+Qed.
+
+Lemma find_sheet_add_writes n m ws : forall l,
+  find_sheet n (add_writes m ws l)
+  = match find_sheet n l with Some s => Some (if str_eqb (sw_name s) m then app_writes s ws else s) | None => None end.
+Proof.
+  induction l as [|s l IH]; cbn [add_writes]; [reflexivity|].
+  destruct (str_eqb (sw_name s) m) eqn:E.
+  - unfold find_sheet. cbn [find app_writes sw_name]. destruct (str_eqb (sw_name s) n) eqn:En.
+    + rewrite E. reflexivity.
+    + fold (find_sheet n l). destruct (find_sheet n l) as [s'|] eqn:Ef; [|reflexivity].
+      destruct (find_sheet_name _ _ _ Ef) as [Hn _]. rewrite Hn.
+      destruct (str_eqb n m) eqn:Enm; [|reflexivity]. apply str_eqb_eq in Enm. apply str_eqb_eq in E. rewrite Enm, <- E, str_eqb_refl in En. discriminate.
+  - unfold find_sheet. cbn [find]. destruct (str_eqb (sw_name s) n) eqn:En; [rewrite E; reflexivity|]. exact IH.
+Qed.
+
+Definition ready (st : tstate) (l : list item) (n : str) : Prop :=
+  exists s r, find_sheet n (ts_sheets st) = Some s /\ sget n (ts_rows st) = Some r /\ 0 <= r /\ r + nrouted T n l <= sw_rows s
+    /\ forall it, In it l -> routed T n it = true -> Forall (fun cv => 0 <= fst cv < sw_cols s) (it_cells it).
+
+Lemma place_all_ok : forall l st,
+  (forall it, In it l -> exists n, type_to_sheet T (it_type it) = Some n /\ ready st l n) ->
+  exists st', place_all T st l = Ok st'.
+Proof.
+  induction l as [|it l IH]; intros st H; [exists st; reflexivity|].
+  destruct (H it (or_introl eq_refl)) as [m [Hm [s [r [Hf [Hg [Hr0 [Hcap Hcols]]]]]]]].
+  assert (Rm : routed T m it = true) by (unfold routed; rewrite Hm; apply str_eqb_refl).
+  rewrite nrouted_cons, Rm in Hcap. pose proof (nrouted_nonneg T m l) as Hnn.
+  assert (Hcapw : forallb (in_capacity s) (row_writes r it) = true).
+  { apply forallb_forall. intros w Hw. unfold row_writes in Hw. apply in_map_iff in Hw. destruct Hw as [[c v] [Ew Hc]]. subst w.
+    specialize (Hcols it (or_introl eq_refl) Rm). rewrite Forall_forall in Hcols. specialize (Hcols (c, v) Hc). cbn [fst] in Hcols.
+    unfold in_capacity. cbn [cw cw_row cw_col fst snd]. apply andb_true_iff. split; [apply andb_true_iff; split; [apply andb_true_iff; split|]|];
+      first [apply Z.leb_le | apply Z.ltb_lt]; lia. }
+  cbn [place_all]. unfold place. rewrite Hm, Hf, Hg, Hcapw.
+  apply IH. intros it' Hit'. destruct (H it' (or_intror Hit')) as [n' [Hn' [s' [r' [Hf' [Hg' [Hr0' [Hcap' Hcols']]]]]]]].
+  exists n'. split; [exact Hn'|]. unfold ready. cbn [ts_rows ts_sheets]. rewrite find_sheet_add_writes, Hf', sget_sset, (tg_step T G).
+  destruct (find_sheet_name _ _ _ Hf') as [Hname' _].
+  rewrite nrouted_cons, (routed_target T n' it m Hm) in Hcap'.
+  destruct (str_eqb n' m) eqn:E.
+  - apply str_eqb_eq in E. rewrite E in *. assert (s' = s) by congruence. subst s'. assert (r' = r) by congruence. subst r'.
+    rewrite Hname', str_eqb_refl in *. eexists. eexists. split; [reflexivity|]. split; [reflexivity|]. cbn [app_writes sw_rows sw_cols].
+    split; [lia|]. split; [lia|]. intros it'' Hi'' R''. exact (Hcols' it'' (or_intror Hi'') R'').
+  - rewrite Hname', E. rewrite (str_eqb_sym m n'), E in Hcap'. eexists. eexists. split; [reflexivity|]. split; [exact Hg'|].
+    split; [exact Hr0'|]. split; [lia|]. intros it'' Hi'' R''. exact (Hcols' it'' (or_intror Hi'') R'').
+Qed.
+
+Lemma size_sheets_ok count : forall l, (forall s, In s l -> is_legend s = false -> sheet_types T (sw_name s) <> None) ->
+  exists l', size_sheets T count l = Ok l'.
+Proof.
+  induction l as [|s l IH]; intro H; [exists []; reflexivity|]. cbn [size_sheets].
+  destruct IH as [r Hr]; [intros s' Hs'; apply H; right; exact Hs'|]. rewrite Hr.
+  destruct (is_legend s) eqn:E; [eexists; reflexivity|].
+  specialize (H s (or_introl eq_refl) E). destruct (sheet_types T (sw_name s)); [eexists; reflexivity | congruence].
+Qed.
+
+Lemma prune_ok rows : forall l, (forall s, In s l -> is_legend s = false -> sget (sw_name s) rows <> None) ->
+  exists out, prune T rows l = Ok out.
+Proof.
+  induction l as [|s l IH]; intro H; [exists []; reflexivity|]. cbn [prune].
+  destruct IH as [r Hr]; [intros s' Hs'; apply H; right; exact Hs'|]. rewrite Hr.
+  destruct (is_legend s) eqn:E; [eexists; reflexivity|].
+  specialize (H s (or_introl eq_refl) E). destruct (sget (sw_name s) rows); [eexists; reflexivity | congruence].
+Qed.
+
+Lemma data_name_not_legend n : In n (data_sheet_names T) -> str_eqb n s_Legend = false.
+Proof.
+  unfold data_sheet_names, data_sheets0. intro H. apply in_map_iff in H. destruct H as [s [E H]]. apply filter_In in H.
+  destruct H as [_ H]. unfold is_legend in H. rewrite E in H. apply negb_true_iff in H. exact H.
+Qed.
+
+Lemma data_name_in_init n : In n (data_sheet_names T) -> In n (map sw_name (init0 T)).
+Proof.
+  unfold data_sheet_names, data_sheets0. intro H. apply in_map_iff in H. destruct H as [s [E H]]. apply filter_In in H.
+  apply in_map_iff. exists s. tauto.
+Qed.
+
+(** the state between two assets *)
+Definition Inv (st : tstate) : Prop :=
+  map sw_name (ts_sheets st) = map sw_name (init0 T) /\
+  forall s, In s (ts_sheets st) -> is_legend s = false ->
+    exists r s0, sget (sw_name s) (ts_rows st) = Some r /\ 0 <= r <= sw_rows s
+                 /\ In s0 (data_sheets0 T) /\ sw_name s0 = sw_name s /\ sw_cols s = sw_cols s0.
+
+Lemma nrouted_items i ac items n : mk_items T (asset_sources i ac) = Ok items ->
+  nrouted T n items = Z.of_nat (length (filter (fun g => routed_ty T n (t_type (g_ev g))) (cd_gls (snd ac)))).
+Proof.
+  intro H. unfold nrouted. f_equal. pose proof (mk_items_Forall2 T _ _ H) as F.
+  rewrite <- (sources_gls (cd_gls (snd ac)) O (ra_name (fst ac)) (rp_period i) (cd_evfrac (snd ac)) (cd_lotfrac (snd ac))).
+  fold (asset_sources i ac). rewrite filter_map_length. symmetry.
+  apply (Forall2_filter_length _ _ _ _ _ F). intros src it Hmk. unfold routed, routed_ty. rewrite (mk_item_type T _ _ Hmk). reflexivity.
+Qed.
+
+Lemma dsize_covers i ac items n : mk_items T (asset_sources i ac) = Ok items ->
+  cd_gls (snd ac) = iter_window g_day (rp_from i) (rp_to i) (cd_all_gls (snd ac)) ->
+  In n (data_sheet_names T) -> nrouted T n items <= dsize T (type_count i (snd ac)) n.
+Proof.
+  intros Hmk Hg Hn. rewrite (nrouted_items i ac items n Hmk). unfold dsize. rewrite (data_name_not_legend n Hn).
+  destruct (tg_keys T G n Hn) as [_ Hk]. destruct (sheet_types T n) as [tys|] eqn:E; [|congruence].
+  exact (routed_le_appended T i (snd ac) n tys A (tg_fun_keys T G) E Hg).
+Qed.
+
+Lemma gen_asset_ok i st ac : Inv st ->
+  (exists items, mk_items T (asset_sources i ac) = Ok items) ->
+  (forall g, In g (cd_gls (snd ac)) -> type_to_sheet T (t_type (g_ev g)) <> None) ->
+  cd_gls (snd ac) = iter_window g_day (rp_from i) (rp_to i) (cd_all_gls (snd ac)) ->
+  exists st', gen_asset T i st ac = Ok st' /\ Inv st'.
+Proof.
+  intros [I1 I2] [items Hmk] Hty Hg.
+  assert (HK : forall s, In s (ts_sheets st) -> is_legend s = false -> sheet_types T (sw_name s) <> None).
+  { intros s Hs Hl. destruct (I2 s Hs Hl) as [r [s0 [_ [_ [H0 [N0 _]]]]]]. rewrite <- N0.
+    exact (proj2 (tg_keys T G _ (In_data_name T s0 H0))). }
+  destruct (size_sheets_ok (type_count i (snd ac)) _ HK) as [sized Hsz].
+  destruct (size_sheets_spec T _ _ _ Hsz) as [Esz _].
+  assert (Nsz : map sw_name sized = map sw_name (init0 T)) by (rewrite Esz, names_ext; exact I1).
+  (* every sheet of the sized file that is not the legend: row index, capacity, columns *)
+  assert (HS : forall s1, In s1 sized -> is_legend s1 = false ->
+             exists r s0, sget (sw_name s1) (ts_rows st) = Some r /\ 0 <= r /\ r + nrouted T (sw_name s1) items <= sw_rows s1
+                          /\ In s0 (data_sheets0 T) /\ sw_name s0 = sw_name s1 /\ sw_cols s1 = sw_cols s0).
+  { intros s1 Hs1 Hl1. rewrite Esz in Hs1. apply in_map_iff in Hs1. destruct Hs1 as [s [Es Hs]]. subst s1.
+    unfold is_legend in Hl1. cbn [ext sw_name sw_rows sw_cols] in *.
+    destruct (I2 s Hs Hl1) as [r [s0 [R1 [R2 [H0 [N0 C0]]]]]]. exists r, s0. split; [exact R1|]. split; [lia|].
+    assert (Hdn : In (sw_name s) (data_sheet_names T)) by (rewrite <- N0; apply In_data_name; exact H0).
+    pose proof (dsize_covers i ac items (sw_name s) Hmk Hg Hdn). split; [lia|]. tauto. }
+  assert (HP : exists st', place_all T {| ts_rows := ts_rows st; ts_sheets := sized |} items = Ok st').
+  { apply place_all_ok. intros it Hit.
+    pose proof (mk_items_Forall2 T _ _ Hmk) as F.
+    assert (Hsrc : exists src, In src (asset_sources i ac) /\ mk_item T src = Ok it).
+    { clear -F Hit. induction F as [|a b l l' Hab F IH]; [contradiction|]. destruct Hit as [<-|Hit].
+      - exists a. split; [left; reflexivity | exact Hab].
+      - destruct (IH Hit) as [src [S1 S2]]. exists src. split; [right; exact S1 | exact S2]. }
+    destruct Hsrc as [src [Hsrc Hmi]].
+    assert (Hgl : In (rs_gl src) (cd_gls (snd ac))).
+    { rewrite <- (sources_gls (cd_gls (snd ac)) O (ra_name (fst ac)) (rp_period i) (cd_evfrac (snd ac)) (cd_lotfrac (snd ac))).
+      apply in_map. exact Hsrc. }
+    specialize (Hty _ Hgl). rewrite <- (mk_item_type T _ _ Hmi) in Hty.
+    destruct (type_to_sheet T (it_type it)) as [n|] eqn:En; [|congruence]. exists n. split; [reflexivity|].
+    assert (Hdn : In n (data_sheet_names T)) by exact (tg_targets T G _ _ En).
+    assert (Hin : In n (map sw_name sized)) by (rewrite Nsz; apply data_name_in_init; exact Hdn).
+    destruct (find_sheet_In n sized Hin) as [s1 Hf]. destruct (find_sheet_name _ _ _ Hf) as [Hn1 Hi1].
+    assert (Hl1 : is_legend s1 = false) by (unfold is_legend; rewrite Hn1; exact (data_name_not_legend n Hdn)).
+    destruct (HS s1 Hi1 Hl1) as [r [s0 [R1 [R2 [R3 [H0 [N0 C0]]]]]]]. rewrite Hn1 in *.
+    exists s1, r. cbn [ts_rows ts_sheets]. split; [exact Hf|]. split; [exact R1|]. split; [exact R2|]. split; [exact R3|].
+    intros it' Hit' _. apply Forall_forall. intros [c v] Hcv. cbn [fst].
+    assert (Hsrc' : exists src', mk_item T src' = Ok it').
+    { clear -F Hit'. induction F as [|a b l l' Hab F IH]; [contradiction|]. destruct Hit' as [<-|Hit']; [exists a; exact Hab | exact (IH Hit')]. }
+    destruct Hsrc' as [src' Hmi']. destruct (mk_item_spec T src' it' G Hmi') as [_ [_ _]].
+    unfold mk_item in Hmi'. destruct (cells_of (tt_datefmt T) src' (row_cols T src')) as [cs|] eqn:Ec; [|discriminate].
+    inversion Hmi'; subst it'. cbn [it_cells] in Hcv. destruct (cells_of_spec _ _ _ _ Ec) as [C1 _].
+    assert (Hc : In c (map fst (row_cols T src'))) by (rewrite <- C1; apply in_map_iff; exists (c, v); split; [reflexivity | exact Hcv]).
+    apply in_map_iff in Hc. destruct Hc as [[c' fld] [E1 Hc]]. cbn [fst] in E1. subst c'.
+    destruct (tg_sheet T G s0 H0) as [_ [_ [_ S4]]]. specialize (S4 (c, fld) (row_cols_incl T src' _ Hc)). cbn [fst] in S4. rewrite C0. exact S4. }
+  destruct HP as [st' HP]. exists st'. split; [unfold gen_asset; rewrite Hsz, Hmk; exact HP|].
+  assert (NDsz : NoDup (map sw_name (ts_sheets {| ts_rows := ts_rows st; ts_sheets := sized |}))) by (cbn [ts_sheets]; rewrite Nsz; exact (tg_nodup T G)).
+  destruct (place_all_spec T items _ st' NDsz HP) as [Hr [Hs _]]. cbn [ts_rows ts_sheets] in *. split.
+  - rewrite Hs, map_map. rewrite <- Nsz. apply map_ext. reflexivity.
+  - intros s' Hs' Hl'. rewrite Hs in Hs'. apply in_map_iff in Hs'. destruct Hs' as [s1 [E1 Hs1]]. subst s'.
+    unfold is_legend in Hl'. cbn [app_writes sw_name sw_rows sw_cols] in *.
+    destruct (HS s1 Hs1 Hl') as [r [s0 [R1 [R2 [R3 [H0 [N0 C0]]]]]]].
+    exists (r + nrouted T (sw_name s1) items), s0. rewrite Hr, R1, (tg_step T G).
+    pose proof (nrouted_nonneg T (sw_name s1) items). split; [f_equal; ring|]. split; [lia|]. tauto.
+Qed.
+
+Lemma gen_assets_ok i : forall acs st, Inv st ->
+  (forall ac, In ac acs -> exists items, mk_items T (asset_sources i ac) = Ok items) ->
+  (forall ac g, In ac acs -> In g (cd_gls (snd ac)) -> type_to_sheet T (t_type (g_ev g)) <> None) ->
+  (forall ac, In ac acs -> cd_gls (snd ac) = iter_window g_day (rp_from i) (rp_to i) (cd_all_gls (snd ac))) ->
+  exists st', gen_assets T i st acs = Ok st' /\ Inv st'.
+Proof.
+  induction acs as [|ac acs IH]; intros st I H1 H2 H3; [exists st; split; [reflexivity | exact I]|].
+  destruct (gen_asset_ok i st ac I (H1 ac (or_introl eq_refl)) (fun g => H2 ac g (or_introl eq_refl)) (H3 ac (or_introl eq_refl))) as [st1 [E1 I1]].
+  destruct (IH st1 I1 (fun a Ha => H1 a (or_intror Ha)) (fun a g Ha => H2 a g (or_intror Ha)) (fun a Ha => H3 a (or_intror Ha))) as [st' [E' I']].
+  exists st'. split; [cbn [gen_assets]; rewrite E1; exact E' | exact I'].
+Qed.
+
+(** With consistent tables and a sizing expression that appends at least one row per fraction, the report
+    is produced for every input whose fractions all have a sheet: no dictionary lookup fails and no row
+    lies beyond the rows appended to its sheet, however many assets share it. *)
+Theorem tax_report_total i acs : computed_all i (rp_assets i) = Ok acs ->
+  (exists m, legend_method (rp_sched i) = Ok m) ->
+  (forall ac, In ac acs -> exists items, mk_items T (asset_sources i ac) = Ok items) ->
+  (forall ac g, In ac acs -> In g (cd_gls (snd ac)) -> type_to_sheet T (t_type (g_ev g)) <> None) ->
+  exists out, tax_report T i = Ok out.
+Proof.
+  intros HC [m Hm] H1 H2. unfold tax_report. rewrite HC.
+  unfold init_sheets. rewrite (tg_legend T G). cbn [negb]. unfold legend_writes.
+  pose proof (tg_legend_row T G) as Hlr. destruct (tt_legend_method_row T) as [lr|]; [|congruence]. rewrite Hm.
+  set (lw := [cw lr 1 (PStr m); cw (lr + 1) 1 (day_cell MIN_DAY (rp_from i)); cw (lr + 2) 1 (day_cell MAX_DAY (rp_to i))]).
+  assert (I0 : Inv {| ts_rows := init_rows T; ts_sheets := omap_filter (init_sheet T lw) (tt_template T) |}).
+  { split; cbn [ts_rows ts_sheets]; [apply init_names|]. intros s Hs Hl.
+    assert (H0 : In s (data_sheets0 T)).
+    { unfold data_sheets0, init0. rewrite <- (init_data T lw). apply filter_In. split; [exact Hs | rewrite Hl; reflexivity]. }
+    exists (tt_first_row T), s. rewrite (init_rows_get T _ (proj1 (tg_keys T G _ (In_data_name T s H0)))).
+    destruct (tg_sheet T G s H0) as [_ [S2 _]]. pose proof (tg_first T G). split; [reflexivity|]. split; [lia|]. tauto. }
+  destruct (gen_assets_ok i acs _ I0 H1 H2 (computed_all_gls i _ _ HC)) as [st [EG [_ I2]]]. rewrite EG.
+  destruct (prune_ok (ts_rows st) (ts_sheets st)) as [out Ho].
+  - intros s Hs Hl. destruct (I2 s Hs Hl) as [r [_ [R _]]]. congruence.
+  - rewrite Ho. exists out. reflexivity.
+Qed.
+
+End Total.
+
 (** ---------- last on purpose: everything above is checked even when this fails *)
 (** holds only when every type that can be a taxable event has a sheet in the IE map: with LOST missing
     (finding F4) this proof does not compile *)
 Lemma ie_routing_total : routing_total tax_tables_ie = true.
 Proof. vm_compute. reflexivity. Qed.
+Lemma ie_routing_documented : routing_as_documented tax_tables_ie.
+Proof. vm_compute. repeat split. Qed.
